@@ -862,7 +862,7 @@ def run():
         dev_present = sorted(DEVIATIONS[i] for i in present if i in DEVIATIONS)
 
         # 3a. seeded random configurations start running on the real code right away
-        nrand = 2600 if thorough else 150
+        nrand = 2600 if thorough else 130
         rand_jobs = [(i + 1, "regress", c) for i, c in enumerate(REGRESS)]
         rand_jobs += [(len(rand_jobs) + i + 1, "random", random_config(r)) for i in range(nrand - len(rand_jobs))]
         t0 = time.time()
@@ -872,7 +872,7 @@ def run():
             # 1. design level
             runs = []
             exh_cfgs = [("structure", dict(STRUCT, maxa=3, maxb=1, taba='{"std","alt"}') if thorough
-                         else dict(STRUCT, polb='{"balanced","max-bundle"}')),
+                         else dict(STRUCT, pola='{"max-compat","max-bundle"}', polb='{"balanced","max-bundle"}')),
                         ("parameters", dict(PARAMS, maxa=2) if thorough else PARAMS)]
             if thorough:
                 exh_cfgs.append(("parameters-answerer", dict(PARAMS_B, maxb=2)))
@@ -894,7 +894,7 @@ def run():
             t1 = time.time()
             wits = list(WITNESSES) if thorough else ["WitnessRich", "WitnessNoUnassociated"][seed() % 2:][:1]
             devs = list(ALL_DEVIATIONS) if thorough else [ALL_DEVIATIONS[seed() % 3]]
-            nsim = 1500 if thorough else 130
+            nsim = 1500 if thorough else 110
             simcfg = MODEL_CFG % dict(SIM, dev="{" + ",".join('"%s"' % d for d in dev_present) + "}")
 
             # (harness.tlc writes <module>_run.cfg into the scratch directory: one directory per
